@@ -653,7 +653,11 @@ func drain(s *sess, r *tr.Rand, how int) {
 }
 
 func gen(o *tr.Opts, w *tr.W) {
-	r := tr.NewRand(o.Seed)
+	// tr.NewRand(s) and tr.NewRand(s+1) are the same SplitMix64 sequence one position apart (the
+	// state is s*gamma + c and advances by gamma), and generators that draw until a condition holds
+	// fall into step with each other: with the plain seed the later streams of this generator were
+	// the same for every VERIF_SEED.  So the seed is scrambled first (FNV-1a of its decimal text).
+	r := tr.NewRand(fnv64("queuetrace seed " + strconv.FormatUint(o.Seed, 10)))
 
 	// 0. construction only, including a negative size (documented? no: make panics)
 	for _, in := range inits {
